@@ -418,33 +418,39 @@ func genC15(e *emitter, r *rng, tier string) {
 	planted := []int{0, 1, 50, 97, 98, 99, 100, 101, 150, 198, 199, 200, 201, 450, 2500, 5000, 9000}
 	// the read-ahead must not grow with the depth of the match: deep plants in every run, on every
 	// version, through every lazy entry point
-	for _, q := range []int{5200, 6400, 7900, 9800, 12500, 16000, 20000, 40000} {
-		if tier == "quick" && q == 40000 {
-			continue
-		}
-		// a pattern whose FIRST occurrence in the generator's digits is at q
-		var p []int
-		for ln := 8; ln <= 16; ln++ {
-			p = p[:0]
-			for k := 0; k < ln; k++ {
-				p = append(p, genDigit(q+k))
+	for _, q := range []int{5200, 6400, 7900, 9800, 12500, 16000, 20000, 40000, 80000, 160000} {
+		// a pattern whose FIRST occurrence in the source's digits is at q. G sources' digits are
+		// close to periodic (the pattern occurs earlier, wherever that is is still a fair case);
+		// H sources' are hashed, so the first occurrence really is that deep
+		for _, kind := range []string{"G", "H"} {
+			dg := genDigit
+			if kind == "H" {
+				dg = hashDigit
 			}
-			earlier := false
-			for st := 0; st < q && !earlier; st++ {
-				k := 0
-				for k < ln && genDigit(st+k) == p[k] {
-					k++
+			var p []int
+			for ln := 8; ln <= 16; ln++ {
+				p = p[:0]
+				for k := 0; k < ln; k++ {
+					p = append(p, dg(q+k))
 				}
-				earlier = k == ln
+				earlier := false
+				for st := 0; st < q && !earlier; st++ {
+					k := 0
+					for k < ln && dg(st+k) == p[k] {
+						k++
+					}
+					earlier = k == ln
+				}
+				if !earlier {
+					e.count("C15.deep_plant_first_occurrence_at_depth_" + fmt.Sprint(q))
+					break
+				}
 			}
-			if !earlier {
-				break
-			}
-		}
-		ps := patString(p)
-		for _, op := range []string{"ff:0:%s", "ffn:0:%s:1", "find:0:%s:1", "m:0:%s:1"} {
-			for v := 1; v <= 3; v++ {
-				emitScriptLine(e, v, "G:-1:1:0", "cons;"+fmt.Sprintf(op, ps)+";cons")
+			ps := patString(p)
+			for _, op := range []string{"ff:0:%s", "ffn:0:%s:1", "find:0:%s:1", "m:0:%s:1"} {
+				for v := 1; v <= 3; v++ {
+					emitScriptLine(e, v, kind+":-1:1:0", "cons;"+fmt.Sprintf(op, ps)+";cons")
+				}
 			}
 		}
 		e.count("C15.deep_plant")
